@@ -254,6 +254,8 @@ class Builder:
         for p in target["params"]:
             if self.chance(70):
                 kwargs[p] = self.expr(scope)
+                if self.cfg["ticks"] and self.chance(25):
+                    kwargs[p] = dict(kwargs[p], tick=self.fresh("a"))
         n = {"t": "comp", "name": target["name"], "kwargs": kwargs, "only": bool(self.cfg["only"] and self.chance(12)), "body": None}
         slots = target["_slots"]
         r = self.integer(0, 99)
@@ -383,7 +385,7 @@ class Builder:
         if self.cfg["idecho"]:
             spec["data"].append([self.fresh("id"), ["id"]])
         if self.cfg["hooks"]:
-            spec["hooks"] = {"before": self.chance(40), "after": self.chance(40)}
+            spec["hooks"] = {"before": self.chance(40), "after": self.chance(40), "tpl": self.chance(25)}
         if self.cfg["assets"]:
             if self.chance(65):
                 spec["js"] = "  " if self.chance(8) else "/*js_%s*/" % name
